@@ -1158,6 +1158,10 @@ class Overflow(Unit):
                 rec.violation("overflow:second-compile-does-not-terminate:%s" % fkey_fam, "second compile (%s) of %s %s [first: repacker=%s ext=%s]" % (again, fam, kn, hbc, ext))
                 return
             rec.transition(calls2["fixLookupOverFlows"] + calls2["fixSubTableOverFlows"])
+            if err2 is not None and hb2 != hbc and side == "stuck":
+                # an unsplittable table that only the other packer can serialise: a clean failure is allowed
+                rec.count("unsplittable table: the other packer fails cleanly on the second compile")
+                continue
             if err2 is not None:
                 rec.violation("overflow:second-compile-fails:%s" % fkey_fam, "%s %s [repacker=%s ext=%s level=%s]: first compile succeeded, compiling the same object again (%s) raises %r"
                               % (fam, kn, hbc, ext, level, again, err2))
